@@ -9,7 +9,7 @@ From Coq Require Import ZArith QArith List Bool.
 From VL Require Import Prelude.Sx Prelude.PyDict Prelude.GDict Model.GetNBest Model.Divisor Model.HighestAverages
      Model.Convert Model.Condorcet
      Proofs.Dict_proofs Proofs.HA_proofs Proofs.Divisor_proofs Proofs.Mono_proofs Proofs.Additive_proofs
-     Proofs.Convert_proofs Proofs.CopelandMono_proofs Proofs.Minimax_proofs.
+     Proofs.Convert_proofs Proofs.CopelandMono_proofs Proofs.Minimax_proofs Proofs.Condorcet_proofs Proofs.Schulze_proofs.
 Import ListNotations.
 Open Scope Z_scope.
 
@@ -126,10 +126,69 @@ Theorem C17_minimax : forall (v v' : pvotes) (w : C) (s : Condorcet.scorer),
   minimax s v 1 = [Cand w] -> minimax s v' 1 = [Cand w].
 Proof. intros v v' w s Hnn Hnn' H2 Hr. exact (minimax_monotone v v' w Hnn Hnn' H2 Hr s). Qed.
 
-(* Schulze: full statement (decided per explored case by the relational checker of the check; not yet a theorem -
-   listed as partial in the evidence) *)
+(* Schulze.  votelib ranks the candidates by their NUMBER OF PATH-WINS (a Copeland count over the beat-path relation),
+   not by Schulze's criterion "no path-defeat".  For that ranking the clause is REFUTED (C17_schulze_refuted): raising the
+   sole winner on one ballot can create new path-wins among the others, lifting them to the winner's count.
+   Witnesses (pairwise counts of ranked profiles, one ballot changed by moving the winner one place up; both replayed on
+   the implementation, see Proofs/Schulze_proofs.v): five candidates, 12 voters - before, C = 3 is the only candidate
+   with two path-wins, after the move A and E have two as well and the result is a three-way tie
+   (C17_schulze_witness); six candidates, 14 voters - before, E = 5 wins alone, after the move C = 3 wins alone and E
+   is third (C17_schulze_witness_loses). *)
 Definition C17_schulze_full_statement : Prop :=
   forall v v' w, raises v v' w -> schulze v (candidates v) 1 = [Cand w] -> schulze v' (candidates v') 1 = [Cand w].
+
+Theorem C17_schulze_witness :
+  NoDup (map fst mono_v) /\ NoDup (map fst mono_v') /\
+  (forall p n, In (p, n) mono_v -> 0 <= n) /\ (forall p n, In (p, n) mono_v' -> 0 <= n) /\
+  raises mono_v mono_v' 3%positive /\
+  schulze mono_v (candidates mono_v) 1 = [Cand 3%positive] /\
+  schulze mono_v' (candidates mono_v') 1 = [TieR [1%positive; 3%positive; 5%positive]].
+Proof. exact schulze_monotone_refuted. Qed.
+
+Theorem C17_schulze_witness_loses :
+  NoDup (map fst mono6_v) /\ NoDup (map fst mono6_v') /\
+  (forall p n, In (p, n) mono6_v -> 0 <= n) /\ (forall p n, In (p, n) mono6_v' -> 0 <= n) /\
+  raises mono6_v mono6_v' 5%positive /\
+  schulze mono6_v (candidates mono6_v) 1 = [Cand 5%positive] /\
+  schulze mono6_v' (candidates mono6_v') 1 = [Cand 3%positive] /\
+  schulze mono6_v' (candidates mono6_v') 3 = [Cand 3%positive; Cand 4%positive; Cand 5%positive].
+Proof. exact schulze_monotone_refuted_loses. Qed.
+
+Theorem C17_schulze_refuted : ~ C17_schulze_full_statement.
+Proof.
+  intros H. destruct schulze_monotone_refuted as (_ & _ & _ & _ & Hr & H1 & H2).
+  specialize (H _ _ _ Hr H1). rewrite H2 in H. discriminate H.
+Qed.
+
+(* What does hold, for every pair of well-formed dictionaries related by [raises] and every iteration order listing the
+   candidates: the strongest path from w to anybody does not weaken and the strongest path from anybody to w does not
+   strengthen; so w keeps every path-win, suffers no new path-defeat, its score (the number of path-wins it is ranked
+   by) does not drop, and Schulze's own winner criterion - no candidate has a stronger path to w than w has to it -
+   is preserved.  (The others' scores may rise: that is the refuted part.) *)
+Theorem C17_schulze_partial : forall (v v' : pvotes) (w : C) (order : list C),
+  NoDup (map fst v) -> NoDup (map fst v') ->
+  (forall p n, In (p, n) v -> 0 <= n) -> (forall p n, In (p, n) v' -> 0 <= n) ->
+  raises v v' w -> incl (candidates v) order ->
+  let P := widest_paths v order in let P' := widest_paths v' order in
+  (forall x, pget0 P (w, x) <= pget0 P' (w, x)) /\
+  (forall x, pget0 P' (x, w) <= pget0 P (x, w)) /\
+  (forall x, beats P w x -> beats P' w x) /\
+  (forall x, beats P' x w -> beats P x w) /\
+  dget_or (sscores v order) w 0 <= dget_or (sscores v' order) w 0 /\
+  ((forall x, pget0 P (x, w) <= pget0 P (w, x)) -> forall x, pget0 P' (x, w) <= pget0 P' (w, x)).
+Proof.
+  intros v v' w order Hnd Hnd' Hnn Hnn' Hr Ho P P'.
+  split; [exact (raise_paths_out v v' w Hnd Hnd' Hnn Hnn' Hr order Ho)|].
+  split; [exact (raise_paths_in v v' w Hnd Hnd' Hnn Hnn' Hr order Ho)|].
+  split; [exact (raise_keeps_wins v v' w Hnd Hnd' Hnn Hnn' Hr order Ho)|].
+  split; [exact (raise_no_new_defeat v v' w Hnd Hnd' Hnn Hnn' Hr order Ho)|].
+  split; [exact (raise_score v v' w Hnd Hnd' Hnn Hnn' Hr order Ho)|].
+  exact (raise_potential_winner v v' w Hnd Hnd' Hnn Hnn' Hr order Ho).
+Qed.
+
+(* [sscores v order] is the dictionary the evaluator hands to get_n_best *)
+Theorem C17_schulze_scores : forall v order n, schulze v order n = get_n_best zle_bool (sscores v order) n.
+Proof. intros v order n. reflexivity. Qed.
 
 (* non-vacuity: 3 parties, D'Hondt, 5 -> 6 seats (the 5-seat run ends in a tie A/B for the last seat) *)
 Example C17_example :
@@ -150,3 +209,8 @@ Print Assumptions C17_positional.
 Print Assumptions C17_copeland.
 Print Assumptions C17_minimax.
 Print Assumptions C17_scorers_nonincreasing.
+Print Assumptions C17_schulze_witness.
+Print Assumptions C17_schulze_witness_loses.
+Print Assumptions C17_schulze_refuted.
+Print Assumptions C17_schulze_partial.
+Print Assumptions C17_schulze_scores.
